@@ -224,20 +224,23 @@ func ValidateLogConfig(cfg *configpb.LogConfig) (*ValidatedLogConfig, error) {
 		if len(cfg.CtfeStorageConnectionString) == 0 {
 			return nil, errors.New("missing ctfe_storage_connection_string when issuance chain storage backend is CTFE")
 		}
-		// Validate CTFEStorageConnectionString
-		if strings.HasPrefix(cfg.CtfeStorageConnectionString, "mysql") {
-			parts := strings.Split(cfg.CtfeStorageConnectionString, "://")
-			if len(parts) < 2 {
-				return nil, errors.New("failed to parse ctfe_storage_connection_string for mysql driver")
-			}
+		// Validate CTFEStorageConnectionString: the storage packages open
+		// strings of the form <driver>://<data source> only, the driver being
+		// named exactly.
+		parts := strings.Split(cfg.CtfeStorageConnectionString, "://")
+		if len(parts) != 2 {
+			return nil, errors.New("failed to parse ctfe_storage_connection_string: want <driver>://<data source>")
+		}
+		switch parts[0] {
+		case "mysql":
 			if _, err := mysql.ParseDSN(parts[1]); err != nil {
 				return nil, errors.New("failed to parse ctfe_storage_connection_string for mysql driver")
 			}
-		} else if strings.HasPrefix(cfg.CtfeStorageConnectionString, "postgres") {
+		case "postgresql", "postgres":
 			if _, err := pgconn.ParseConfig(cfg.CtfeStorageConnectionString); err != nil {
 				return nil, errors.New("failed to parse ctfe_storage_connection_string for postgresql pgx driver")
 			}
-		} else {
+		default:
 			return nil, errors.New("unsupported driver in ctfe_storage_connection_string")
 		}
 		vCfg.CTFEStorageConnectionString = cfg.CtfeStorageConnectionString
